@@ -134,6 +134,32 @@ theorem kindOf_by_annotation (ing : Ingress) :
       simp only [e1, e2]
       split <;> simp_all
 
+/-- **isRegexOrExactMatch**: the path kinds for which a delegated route must have exactly one subroute are those that start with
+`~` or `=` — the test of the model's `vsrFits`, character by character. -/
+theorem isRegexOrExactMatch_iff (path : String) :
+    ValidationVS.isRegexOrExactMatch path = (path.toList.head? == some '~' || path.toList.head? == some '=') := by
+  simp only [ValidationVS.isRegexOrExactMatch, Go.hasPrefix]
+  have a : ("~" : String).toList = ['~'] := rfl
+  have b : ("=" : String).toList = ['='] := rfl
+  rw [a, b]
+  cases path.toList with
+  | nil => rfl
+  | cons c cs =>
+    simp [List.isPrefixOf]
+    have sym : ∀ a b : Char, (a == b) = (b == a) := by
+      intro a b
+      by_cases h : a = b
+      · subst h; rfl
+      · have h' : ¬ b = a := fun e => h e.symm
+        rw [beq_eq_false_iff_ne.mpr h, beq_eq_false_iff_ne.mpr h']
+    rw [sym '~' c, sym '=' c]
+
+/-- **generatePortProtocolKey** is injective on (port, protocol) for protocols that are words (no `/`): two listeners clash in the
+validator's table exactly when they have the same port and protocol. -/
+theorem generatePortProtocolKey_eq (port : Int) (proto : String) :
+    ValidationGC.generatePortProtocolKey port proto = toString port ++ "/" ++ proto := by
+  simp [ValidationGC.generatePortProtocolKey, Go.fmt, Go.Fmt.fmt]
+
 /-! ### non-vacuity -/
 example : K8sConfiguration.chooseObjectMetaWinner { UID := "u002", CreationTimestamp := ⟨5⟩ } { UID := "u001", CreationTimestamp := ⟨5⟩ } = true := by decide
 example : K8sConfiguration.chooseObjectMetaWinner { UID := "u001", CreationTimestamp := ⟨4⟩ } { UID := "u002", CreationTimestamp := ⟨5⟩ } = true := by decide
